@@ -255,6 +255,7 @@ type harness struct {
 	all      []*stream // every stream ever pushed (leave candidates)
 	held     []*stream // UID allocated, join not yet pushed
 	nextUID  uint64
+	uidAlloc *policysync.UIDAllocator
 	inputSeq int
 	ver      int
 
@@ -669,7 +670,10 @@ func (h *harness) atIdle() {
 
 func (h *harness) newStream(w int) *stream {
 	r := h.r
-	h.nextUID++ // like policysync.UIDAllocator: never 0
+	if h.uidAlloc == nil {
+		h.uidAlloc = policysync.NewUIDAllocator()
+	}
+	h.nextUID = h.uidAlloc.NextUID() // the real allocator the Server uses for every new connection
 	c := 100
 	if !h.roomy {
 		switch r.Src.Weighted([]int{6, 3, 1}, "chan_cap_class") {
